@@ -1,11 +1,12 @@
 #!/venv/bin/python
 """Copies a confirmed seeded change from /tmp/seed/<id> into /verif/seeded/<name>/ (patch.diff, demo.py,
-notes.md, meta.json) and records which checks report it.  usage: store_seed.py C03 [name]"""
+notes.md, meta.json) and records which checks report it.  usage: store_seed.py C03 [name] [basedir]"""
 import json, subprocess, sys, shutil, os, tempfile
 from pathlib import Path
 sid = sys.argv[1]
 name = sys.argv[2] if len(sys.argv) > 2 else sid
-src = Path('/tmp/seed') / sid / '_seed'
+base = Path(sys.argv[3]) if len(sys.argv) > 3 else Path('/tmp/seed')
+src = base / sid / '_seed'
 dst = Path('/verif/seeded') / name
 dst.mkdir(parents=True, exist_ok=True)
 for f in ('patch.diff', 'demo.py', 'notes.md'):
@@ -24,7 +25,7 @@ for i in range(1, 21):
         lines = [l.strip()[:300] for l in r.stdout.splitlines() if l.strip().startswith('refuted') or 'ANALYSIS-ERROR' in l]
         fired[p] = {'exit': r.returncode, 'reports': lines[:4]}
 shutil.rmtree(tmp, ignore_errors=True)
-prop = json.load(open(f'/tmp/seed/{sid}.property.json'))
+prop = json.load(open(base / f'{sid}.property.json'))
 meta = {
     'seed': name, 'breaks_property': sid, 'property_title': prop['title'],
     'origin': 'written by an independent sub-agent that was given only the property record and a scratch git worktree '
